@@ -9,6 +9,10 @@ import (
 // sigma is the flagging threshold for every statistic (two-sided where stated).
 const sigma = 8.0
 
+// minChiSamples: the per-position chi-square over 256 bins is computed only from this many samples
+// on (expected count per bin >= 8).
+const minChiSamples = 2048
+
 type fieldReport struct {
 	Field       string  `json:"field"`
 	N           int     `json:"n"`
@@ -64,26 +68,38 @@ func uniformBytes(field string, vals [][]byte) (fieldReport, string) {
 		for _, v := range vals {
 			cnt[v[pos]]++
 		}
-		exp := n / 256
-		chi := 0.0
-		for _, c := range cnt {
-			chi += (float64(c) - exp) * (float64(c) - exp) / exp
-		}
-		// Wilson-Hilferty normal approximation of chi-square with 255 degrees of freedom
-		k := 255.0
-		z := (math.Cbrt(chi/k) - (1 - 2/(9*k))) / math.Sqrt(2/(9*k))
-		rep.Statistics++
-		if math.Abs(z) > math.Abs(rep.WorstChiZ) {
-			rep.WorstChiZ = z
-		}
-		if math.Abs(z) > sigma {
-			return rep, fmt.Sprintf("byte position %d is not uniform: chi-square %.1f over 256 bins (z=%.1f, |z|>%v); zero-count bins=%d", pos, chi, z, sigma, zeroBins(cnt[:]))
+		// The chi-square statistic is judged through a normal approximation, which holds only when the
+		// expected count per bin is not small: with N = 64 (0.25 per bin) the true tail beyond "8 sigma"
+		// is about 1e-8 per position instead of 1e-15, and a stuck bit does not even reach 8. Below
+		// minChiSamples the statistic is therefore not computed; small histories are judged by the
+		// exact tests (no repeat, constant bit) and the binomial ones.
+		if len(vals) >= minChiSamples {
+			exp := n / 256
+			chi := 0.0
+			for _, c := range cnt {
+				chi += (float64(c) - exp) * (float64(c) - exp) / exp
+			}
+			// Wilson-Hilferty normal approximation of chi-square with 255 degrees of freedom
+			k := 255.0
+			z := (math.Cbrt(chi/k) - (1 - 2/(9*k))) / math.Sqrt(2/(9*k))
+			rep.Statistics++
+			if math.Abs(z) > math.Abs(rep.WorstChiZ) {
+				rep.WorstChiZ = z
+			}
+			if math.Abs(z) > sigma {
+				return rep, fmt.Sprintf("byte position %d is not uniform: chi-square %.1f over 256 bins (z=%.1f, |z|>%v); zero-count bins=%d", pos, chi, z, sigma, zeroBins(cnt[:]))
+			}
 		}
 		// per bit
 		for bit := 0; bit < 8; bit++ {
 			ones := 0
 			for _, v := range vals {
 				ones += int(v[pos]>>bit) & 1
+			}
+			// exact: a bit that has the same value in all of >= 64 samples (probability 2^-63 per bit)
+			if len(vals) >= 64 && (ones == 0 || ones == len(vals)) {
+				rep.Statistics++
+				return rep, fmt.Sprintf("bit %d of byte position %d has the same value (%d) in all %d samples", bit, pos, ones/len(vals), len(vals))
 			}
 			z := (float64(ones) - n/2) / (math.Sqrt(n) / 2)
 			rep.Statistics++
